@@ -36,6 +36,11 @@ def gen_case(rng):
 
 def _gen_case(rng):
   inst = se.gen_instance(rng, 'quick', max_admitted=6, theme='default')
+  if rng.random() < 0.3:      # numeric geo codes (so that integer-typed ID columns are exercised often)
+    b0 = rng.choice([3, 10, 100, 2000])
+    m = {g: str(b0 + 7 * i) for i, g in enumerate(inst['geos'])}
+    inst['rows'] = [[m[g], d, v] for g, d, v in inst['rows']]
+    inst['geos'] = [m[g] for g in inst['geos']]
   ids = inst['geos']
   kind = rng.choice(['none', 'subset', 'equal', 'superset_ok', 'superset_bad', 'equal', 'mixed_ok', 'mixed_bad'])
   codes = [c for c in se.CLS_CODE]
@@ -61,7 +66,7 @@ def _gen_case(rng):
     k = int(sorted(vals)[len(vals) // 2]) if sign == 'mixed' else int(max(vals)) + rng.randint(1, 50)
     inst['rows'] = [[g, d, v - k] for g, d, v in inst['rows']]
   inst['sign'] = sign
-  inst['id_type'] = 'int' if all(g.isdigit() and str(int(g)) == g for g in ids) and rng.random() < 0.5 else 'str'
+  inst['id_type'] = rng.choice(['int', 'int_object']) if all(g.isdigit() and str(int(g)) == g for g in ids) and rng.random() < 0.7 else 'str'
   return inst
 
 
